@@ -415,10 +415,15 @@ pub fn run(ctx: &Ctx) -> Result<Run, String> {
         transitions += g.transitions;
         stats.merge(g.stats);
     }
+    // a long run of registrations on one thread (mixed id lengths, PRF secrets, seven authenticators):
+    // every credential id and secret must be fresh random material
+    let lr = super::inst::long_run_sweep(ctx.tier.pick(96, 400), "long-run");
+    transitions += ctx.tier.pick(96, 400);
+    stats.merge(lr);
     let single = cs.len() as u64;
     let mut run = Run::from_stats(
         "model_checking",
-        "single registrations: full product of 10 challenges (lengths 0..64, base64url-discriminating bytes) x 6 accepted origin/RP pairs (host=RP, sub-domain, port, IDN, localhost, Android) x 9 algorithm lists (incl. entries of unknown credential type that carry an unsupported algorithm) x 3 client-data modes x counter on/off x {RefStore, Arc<Mutex<MemoryStore>>}, users x orgs x modes x rk, and all 256 requested credential-id lengths; sequences: BFS over register(rp in 2, user in 2, rk) – so the same account registers repeatedly – from the empty and two seeded stores, on the contract store and on Arc<Mutex<MemoryStore>>. Every response is verified by an independent relying-party implementation and the store delta is compared. Non-trivial = distinct case that produced a credential or the unsupported-algorithm refusal",
+        "a run of 96 (thorough 400) registrations on one thread over seven authenticators with credential-id lengths 16/20/33/60/64/32/48 and PRF secrets: no 8-byte window of a credential id or secret may occur in one drawn earlier; single registrations: full product of 10 challenges (lengths 0..64, base64url-discriminating bytes) x 6 accepted origin/RP pairs (host=RP, sub-domain, port, IDN, localhost, Android) x 9 algorithm lists (incl. entries of unknown credential type that carry an unsupported algorithm) x 3 client-data modes x counter on/off x {RefStore, Arc<Mutex<MemoryStore>>}, users x orgs x modes x rk, and all 256 requested credential-id lengths; sequences: BFS over register(rp in 2, user in 2, rk) – so the same account registers repeatedly – from the empty and two seeded stores, on the contract store and on Arc<Mutex<MemoryStore>>. Every response is verified by an independent relying-party implementation and the store delta is compared. Non-trivial = distinct case that produced a credential or the unsupported-algorithm refusal",
         true,
         stats,
     );
@@ -430,6 +435,9 @@ pub fn run(ctx: &Ctx) -> Result<Run, String> {
 }
 
 pub fn replay(_ctx: &Ctx, case: &Value) -> Result<Vec<Finding>, String> {
+    if let Some(fs) = super::inst::long_run_replay(case, "long-run") {
+        return Ok(fs);
+    }
     if case.get("seq_init").is_some() {
         let init = case["seq_init"].as_u64().unwrap_or(0) as usize;
         let hist: Vec<RegAct> = serde_json::from_value(case["hist"].clone()).map_err(|e| format!("bad C02 sequence: {e}"))?;
